@@ -108,6 +108,18 @@ def user_totals():
     return gb.build_model()
 
 
+def user_totals_vector():
+    """user-supplied replacement nodes whose values are not scalars (a pointwise weighted log-likelihood, a per-coefficient prior)"""
+    import liesel.model as lsl
+    tfd, tfb = _tf()
+    mu = lsl.param(jnp.array([0.5, -0.1]), lsl.Dist(tfd.Normal, loc=0.0, scale=lsl.Var(1.0, name="mu_scale")), name="mu")
+    y = lsl.obs(jnp.array([0.3, -0.2]), lsl.Dist(tfd.Normal, loc=mu, scale=lsl.Var(1.0, name="y_scale")), name="y")
+    gb = lsl.GraphBuilder().add(y)
+    gb.log_lik_node = lsl.Calc(lambda a: jnp.array([2.0, 0.5]) * a, y.dist_node, _name="my_lik")
+    gb.log_prior_node = lsl.Calc(lambda a: a - 3.0, mu.dist_node, _name="my_prior")
+    return gb.build_model()
+
+
 def auto_transform():
     import liesel.model as lsl
     tfd, tfb = _tf()
@@ -148,6 +160,7 @@ FAMILY = {
     "degenerate-mvn-prior": mvnd_prior,
     "DistRegBuilder(np+p smooth)": distreg,
     "user-supplied totals": user_totals,
+    "user-supplied totals (vector-valued)": user_totals_vector,
     "auto_transform": auto_transform,
     "pop-modify-rebuild": pop_modify_rebuild,
     "multivariate+batch shapes": mvn_batch,
